@@ -462,7 +462,9 @@ struct W1
         SVMC_CALL (cx, v.append (std::move (src)));
         if (cx.exc == EX_NONE && ! src.empty ())
         { cx.aux_ok = false; cx.aux_msg = "append(small_vector&&) did not leave its source empty"; }
-        if (cx.exc != EX_NONE)
+        if (cx.exc != EX_NONE
+        &&  ! (cx.thrown_kind == FK_ELEM_MOVE_CTOR && ! ET::copyable)   // exempt by the statement
+        &&  (cx.exc != EX_INJECTED || (cx.thrown == 1 && fault_kind_is_ctor_or_alloc (cx.thrown_kind))))
         {
           // C05: the source is unchanged as well
           bool same = static_cast<int> (src.size ()) == op.n;
